@@ -316,6 +316,28 @@ type HistOpts struct {
 	DumpEvery bool // compare raw key dumps after every operation
 }
 
+// prepImport: the model imports what the file contains after JSON decoding (read here, not by clover)
+func prepImport(send, ln J, im *Impl) {
+	if ln["op"] != "import" {
+		return
+	}
+	var content []byte
+	if f, ok := ln["file"]; ok && f != nil {
+		content, _ = os.ReadFile(im.files[f.(string)])
+	}
+	if raw, ok := ln["raw"]; ok && raw != nil {
+		content = []byte(raw.(string))
+	}
+	send["docs"] = nil
+	if docs, err := parseExport(content); err == nil && content != nil {
+		ds := []interface{}{}
+		for _, m := range docs {
+			ds = append(ds, encDoc(m))
+		}
+		send["docs"] = ds
+	}
+}
+
 func cloneJ(j J) J {
 	out := J{}
 	for k, v := range j {
@@ -378,24 +400,7 @@ func runHistory(dr *Driver, im *Impl, lines []J, opts HistOpts) HistoryOutcome {
 			if opts.Traces {
 				send["trace"] = 1
 			}
-			if ln["op"] == "import" {
-				// the model imports what the file contains after JSON decoding (read here, not by clover)
-				var content []byte
-				if f, ok := ln["file"]; ok && f != nil {
-					content, _ = os.ReadFile(im.files[f.(string)])
-				}
-				if raw, ok := ln["raw"]; ok && raw != nil {
-					content = []byte(raw.(string))
-				}
-				send["docs"] = nil
-				if docs, err := parseExport(content); err == nil && content != nil {
-					ds := []interface{}{}
-					for _, m := range docs {
-						ds = append(ds, encDoc(m))
-					}
-					send["docs"] = ds
-				}
-			}
+			prepImport(send, ln, im)
 			ans, kv := splitTabs(dr.Ask(send))
 			r := LineResult{Impl: er.Line, Spec: kv["spec"], All: parseAll(kv["#all"]), Trace: er.Trace, MTrace: kv["trace"], Fired: er.Fired, TxN: er.TxN}
 			if strings.HasSuffix(ans, " fired") {
